@@ -66,4 +66,67 @@ theorem parse_never_panics (toks : List Token) :
   | err k s => exact Or.inr rfl
   | panic e => exact absurd hr (h.np e)
 
+theorem kind_eof (ty : TokenType) (h : ty.kind = Kind.Eof) : ty = .Eof := by
+  cases ty <;> simp [TokenType.kind] at h ⊢
+
+/-- no token the lexer produces in front of the final one is an `Eof` -/
+theorem lexL_not_eof : ∀ (s : List Char) (off : Nat), ∀ t ∈ lexL s off, t.kind ≠ Kind.Eof := by
+  intro s
+  induction s using lexL_induct with
+  | hnil => intro off t ht; simp at ht
+  | hsp c cs hc ih =>
+    intro off t ht
+    rw [lexL_space hc] at ht
+    exact ih _ t ht
+  | htok c cs o hc ho ih =>
+    intro off t ht
+    rw [lexL_token hc ho] at ht
+    simp only [List.mem_cons] at ht
+    rcases ht with rfl | ht
+    · intro hk
+      have := (lexOne_ok ho).notEof
+      exact this (kind_eof _ (by simpa [Token.kind, mkToken] using hk))
+    · exact ih _ t ht
+
+/-- **Parsing never fails**: for every token sequence that ends with its only `Eof` token,
+    `parser::parse` of the model returns a program — no panic, and not the
+    `expect("Parser cannot fail")` of `parser::parse` either: every loop element consumes a token,
+    every recovery stops in front of the final `Eof` (all synchronisation sets accept it), a
+    declaration whose keyword is there cannot fail, so the declaration loop ends exactly in front of
+    the `Eof`, which is then the last token. -/
+theorem parse_total (front : List Token) (e : Token) (he : e.kind = Kind.Eof)
+    (hf : ∀ t ∈ front, t.kind ≠ Kind.Eof) : ∃ p, Parse.parse (front ++ [e]) = .ok p := by
+  let ctx : Parse.Ctx := { toks := (front ++ [e]).toArray, change := ⟨0, 0, (front ++ [e]).length⟩ }
+  have hE : Total.EofLast ctx := by
+    refine ⟨⟨e, ?_, he⟩, ?_⟩
+    · show (front ++ [e]).toArray[(front ++ [e]).toArray.size - 1]? = some e
+      simp
+    · intro i t ht hk
+      show i + 1 = (front ++ [e]).toArray.size
+      have ht0 : (front ++ [e]).toArray[i]? = some t := ht
+      have ht' : (front ++ [e])[i]? = some t := by simpa using ht0
+      simp only [List.size_toArray, List.length_append, List.length_singleton]
+      by_cases hi : i < front.length
+      · rw [List.getElem?_append_left hi] at ht'
+        exact absurd hk (hf t (List.mem_of_getElem? ht'))
+      · have hlt : i < (front ++ [e]).length := (List.getElem?_eq_some_iff.mp ht').1
+        simp at hlt
+        omega
+  obtain ⟨s', p, h⟩ := Total.program_total ctx hE
+  have hparse : Parse.parse (front ++ [e]) = match Parse.parseProgram ctx none { pos := 0 } with
+      | .ok _ p => .ok p
+      | .err _ _ => .error ⟨"expect:Parser cannot fail"⟩
+      | .panic e => .error e := rfl
+  rw [hparse, h]
+  exact ⟨p, rfl⟩
+
+/-- **Lexing and parsing any text succeeds**: the front half of `AnalyzedSource::new` (tokens, tree
+    with its syntax diagnostics) is total — for every text whatsoever. -/
+theorem lex_parse_total (text : List Char) : ∃ toks p, lex text = .ok toks ∧ Parse.parse toks = .ok p := by
+  have hl : lex text = .ok (lexL text 0 ++ [eofToken (utf8Len text)]) := by
+    simp only [lex, lexGo_eq_lexL]
+  obtain ⟨p, hp⟩ := parse_total (lexL text 0) (eofToken (utf8Len text)) (by simp [eofToken, Token.kind, TokenType.kind])
+    (lexL_not_eof text 0)
+  exact ⟨_, p, hl, hp⟩
+
 end Spl.C02
